@@ -123,6 +123,9 @@ Definition lstart (x : libstate) := mklib (cas x) (ready x) (called x) true (swi
 Definition lok (x : libstate) := mklib (cas x) (ready x) (called x) (org x) true DoneOk (icount x) (mcount x).
 Definition lfail (x : libstate) := mklib (cas x) (ready x) (called x) false (switched x) DoneFail (icount x) (mcount x).
 
+(* a failed initialization that does NOT reset _cffi_call_python_org *)
+Definition lfail_keep (x : libstate) := mklib (cas x) (ready x) (called x) (org x) (switched x) DoneFail (icount x) (mcount x).
+
 Definition lok_noswitch (x : libstate) := mklib (cas x) (ready x) (called x) (org x) (switched x) DoneOk (icount x) (mcount x).
 Definition lswitch (x : libstate) := mklib (cas x) (ready x) (called x) (org x) true (ist x) (icount x) (mcount x).
 
@@ -134,8 +137,22 @@ Definition lswitch (x : libstate) := mklib (cas x) (ready x) (called x) (org x) 
      true   ... CAS lock 1 -> NULL; pthread_mutex_lock(...)                   (the code as it is)
      false  ... pthread_mutex_lock(...); CAS lock 1 -> NULL: a thread that has to wait for the
             mutex waits while holding the guard
-   (C28/Gen.v, gen_guard_released_before_lock). *)
-Definition core (sw rb : bool) (s : state) (tc : nat * choice) : state :=
+   (C28/Gen.v, gen_guard_released_before_lock).
+   [zn] = in _cffi_start_and_call_python (:467-489) the result buffer is zeroed under
+   "if (fnptr == NULL) { ... memset(args, 0, externpy->size_of_result); }" and the only call through
+   the pointer stands under "if (fnptr != NULL)", after it
+     true   the code as it is: a call that gets NULL from _cffi_start_python returns zeros
+     false  the memset is missing / not under that test, or the call is not guarded: the model then
+            does not count a zeroed result at PRet (tripwire: the theorems are about [core true true true])
+   (C28/Gen.v, gen_zero_on_null).
+   [fr] = in _cffi_start_python the failure branch of "_cffi_initialize_python()" (the else of
+   "if (... == 0)", or the body of "if (... != 0)"), inside "if (!called)", resets
+   _cffi_call_python_org = NULL                                                            :462
+     true   the code as it is
+     false  the assignment is missing: after a failed init the pointer keeps the value the module
+            init function stored, and PRet calls through it
+   (C28/Gen.v, gen_fail_resets_org). *)
+Definition core (sw rb zn fr : bool) (s : state) (tc : nat * choice) : state :=
   let (t, c) := tc in
   if negb (t <? nthr s) then s else
   match stacks s t with
@@ -172,10 +189,10 @@ Definition core (sw rb : bool) (s : state) (tc : nat * choice) : state :=
           | CFail => go PInitFail
           end
       | PInitOk => set_stack (set_lib s l (if sw then lok L else lok_noswitch L)) t ((l, PRel) :: rest)
-      | PInitFail => set_stack (set_lib s l (lfail L)) t ((l, PRel) :: rest)
+      | PInitFail => set_stack (set_lib s l (if fr then lfail L else lfail_keep L)) t ((l, PRel) :: rest)
       | PRel => if sw then go PRet
                 else set_stack (set_lib s l (if org L then lswitch L else L)) t ((l, PRet) :: rest)
-      | PRet => if org L then enter_py s t l rest else set_stack (add_zero s l) t rest
+      | PRet => if org L then enter_py s t l rest else set_stack (if zn then add_zero s l else s) t rest
       | PInPy =>
           match c with
           | CCall l' => set_stack s t ((l', PCall) :: (l, PInPy) :: rest)
@@ -214,12 +231,13 @@ Definition keeps_gil (s : state) (t : nat) : bool :=
   | _ => false
   end.
 
-Definition step_gen (sw rb : bool) (s : state) (tc : nat * choice) : state :=
+Definition step_gen (sw rb zn fr : bool) (s : state) (tc : nat * choice) : state :=
   if gil_blocked s (fst tc) then s
-  else let s' := core sw rb s tc in
+  else let s' := core sw rb zn fr s tc in
        if keeps_gil s (fst tc) then set_gil s' (Some (fst tc)) else s'.
 
-Definition step := step_gen gen_switch_in_success gen_guard_released_before_lock.
+Definition step := step_gen gen_switch_in_success gen_guard_released_before_lock gen_zero_on_null
+                            gen_fail_resets_org.
 
 Definition run (n : nat) (sched : list (nat * choice)) : state := fold_left step sched (init n).
 
